@@ -228,3 +228,32 @@ func VerifC09_CommandOnly() {
 	vAssert("command-only/root-goes-on", *flag2 && eqStrs(rem2, []string{p}))
 	vReach("parsed")
 }
+
+// Require-order set on the program before its commands exist is inherited by
+// every command, also by a wrapper that drops the inherited options and then
+// declares one of its own.
+func VerifC09_WrapperInherits() {
+	vNativeReset()
+	mode := vInt("mode", 0, 2)
+	um := vInt("um", 0, 2)
+	t1 := vString("t1")
+	p := positional("p", "wrap")
+	v := positional("v", "wrap")
+	opt := New()
+	setMode(opt, mode)
+	setUnknown(opt, um)
+	opt.SetRequireOrder()
+	profile := opt.String("profile", "d")
+	wrap := opt.NewCommand("wrap", "")
+	wrap.UnsetOptions()
+	dry := wrap.Bool("dry", false)
+	vPhase("run")
+	rem, err := opt.Parse([]string{"--profile", v, "wrap", p, "--dry", t1})
+	vObserve("err", err)
+	vObserve("rem", rem)
+	vAssert("wrapper/no-error", err == nil)
+	vAssert("wrapper/rest-verbatim", eqStrs(rem, []string{p, "--dry", t1}))
+	vAssert("wrapper/before-stop", *profile == v)
+	vAssert("wrapper/not-after-stop", !*dry && !wrap.Called("dry"))
+	vReach("parsed")
+}
